@@ -429,6 +429,10 @@ where
                     && data.set().handle() == *set_handle
                     && data.test(false, &operator)
             }
+            Filter::Annotation(annotation, SelectionQualifier::Normal, _) => {
+                //the data is used by this annotation
+                data.annotations().filter_handle(*annotation).test()
+            }
             Filter::Annotations(annotations, FilterMode::Any, SelectionQualifier::Normal, _) => {
                 data.annotations().filter_any_byref(annotations).test()
             }
